@@ -157,21 +157,241 @@ theorem SChain.lastPct_le {e0 p0 : Nat} {l : List Opt} (h : SChain e0 p0 l) (h0 
     obtain ⟨_, _, c, d⟩ := h
     exact ih d c
 
-/-! ### the bracket search -/
-
-/-- defined exactly up to the longest option -/
-theorem pctFrom_isSome {e0 p0 : Nat} {l : List Opt} (rem : Nat) :
-    (pctFrom e0 p0 l rem).isSome ↔ l ≠ [] ∧ rem ≤ lastEp e0 l ∨ False := by
+theorem WChain.lt_of_mem {e0 p0 : Nat} {l : List Opt} {e p : Nat} (hc : WChain e0 p0 l)
+    (hm : (e, p) ∈ l) : e0 < e := by
   induction l generalizing e0 p0 with
-  | nil => simp [pctFrom]
+  | nil => simp at hm
   | cons o rest ih =>
     obtain ⟨e1, p1⟩ := o
-    unfold pctFrom
+    obtain ⟨a, _, c⟩ := hc
+    rcases List.mem_cons.mp hm with heq | hin
+    · simp only [Prod.mk.injEq] at heq
+      omega
+    · exact Nat.lt_trans a (ih c hin)
+
+/-! ### the bracket search -/
+
+theorem pctFrom_cons (e0 p0 e1 p1 : Nat) (rest : List Opt) (rem : Nat) :
+    pctFrom e0 p0 ((e1, p1) :: rest) rem =
+      if rem ≤ e1 then some (linInterp e0 e1 rem p0 p1) else pctFrom e1 p1 rest rem := rfl
+
+/-- defined up to the longest option … -/
+theorem pctFrom_some_of_le {e0 p0 : Nat} {l : List Opt} {rem : Nat} (hl : l ≠ [])
+    (h : rem ≤ lastEp e0 l) : ∃ p, pctFrom e0 p0 l rem = some p := by
+  induction l generalizing e0 p0 with
+  | nil => exact (hl rfl).elim
+  | cons o rest ih =>
+    obtain ⟨e1, p1⟩ := o
+    rw [pctFrom_cons]
     split
+    · exact ⟨_, rfl⟩
+    · rename_i hgt
+      cases rest with
+      | nil => simp only [lastEp] at h; omega
+      | cons o2 r2 => exact ih (by simp) h
+
+/-- … and not beyond -/
+theorem pctFrom_le_of_some {e0 p0 : Nat} {l : List Opt} {rem p : Nat} (hc : WChain e0 p0 l)
+    (h : pctFrom e0 p0 l rem = some p) : rem ≤ lastEp e0 l := by
+  induction l generalizing e0 p0 with
+  | nil => simp [pctFrom] at h
+  | cons o rest ih =>
+    obtain ⟨e1, p1⟩ := o
+    obtain ⟨_, _, c⟩ := hc
+    rw [pctFrom_cons] at h
+    split at h
     · rename_i hle
-      simp only [Option.isSome_some, ne_eq, reduceCtorEq, not_false_eq_true, true_and, or_false,
-        true_iff, lastEp]
-      sorry
-    · sorry
+      exact Nat.le_trans hle c.le_lastEp
+    · exact ih c h
+
+/-- the percentage lies between the option below and the largest option -/
+theorem pctFrom_bounds {e0 p0 : Nat} {l : List Opt} {rem p : Nat} (hc : WChain e0 p0 l)
+    (h0 : e0 ≤ rem) (h : pctFrom e0 p0 l rem = some p) : p0 ≤ p ∧ p ≤ lastPct p0 l := by
+  induction l generalizing e0 p0 with
+  | nil => simp [pctFrom] at h
+  | cons o rest ih =>
+    obtain ⟨e1, p1⟩ := o
+    obtain ⟨a, b, c⟩ := hc
+    rw [pctFrom_cons] at h
+    split at h
+    · rename_i hle
+      simp only [Option.some.injEq] at h
+      subst h
+      exact ⟨linInterp_ge e0 e1 rem p0 p1 a h0 hle b,
+        Nat.le_trans (linInterp_le e0 e1 rem p0 p1 a h0 hle b) c.le_lastPct⟩
+    · rename_i hgt
+      have := ih c (by omega) h
+      exact ⟨Nat.le_trans b this.1, this.2⟩
+
+/-- strictly below the largest percentage before the longest option (strict chains) -/
+theorem pctFrom_lt {e0 p0 : Nat} {l : List Opt} {rem p : Nat} (hc : SChain e0 p0 l)
+    (h0 : e0 ≤ rem) (hlt : rem < lastEp e0 l) (h : pctFrom e0 p0 l rem = some p) :
+    p < lastPct p0 l := by
+  induction l generalizing e0 p0 with
+  | nil => simp [pctFrom] at h
+  | cons o rest ih =>
+    obtain ⟨e1, p1⟩ := o
+    obtain ⟨a, b, _, d⟩ := hc
+    rw [pctFrom_cons] at h
+    split at h
+    · rename_i hle
+      simp only [Option.some.injEq] at h
+      subst h
+      rcases Nat.lt_or_ge rem e1 with hr | hr
+      · exact Nat.lt_of_lt_of_le (linInterp_lt e0 e1 rem p0 p1 h0 hr b) d.weak.le_lastPct
+      · have : rem = e1 := by omega
+        subst this
+        rw [linInterp_right e0 rem p0 p1 a]
+        cases rest with
+        | nil => simp only [lastEp] at hlt; omega
+        | cons o2 r2 =>
+          obtain ⟨e2, p2⟩ := o2
+          obtain ⟨_, b2, _, d2⟩ := d
+          exact Nat.lt_of_lt_of_le b2 d2.weak.le_lastPct
+    · rename_i hgt
+      exact ih d (by omega) hlt h
+
+/-- monotone in the remaining time -/
+theorem pctFrom_mono {e0 p0 : Nat} {l : List Opt} {r r' p p' : Nat} (hc : WChain e0 p0 l)
+    (h0 : e0 ≤ r) (hr : r ≤ r') (h : pctFrom e0 p0 l r = some p)
+    (h' : pctFrom e0 p0 l r' = some p') : p ≤ p' := by
+  induction l generalizing e0 p0 with
+  | nil => simp [pctFrom] at h
+  | cons o rest ih =>
+    obtain ⟨e1, p1⟩ := o
+    obtain ⟨a, b, c⟩ := hc
+    rw [pctFrom_cons] at h h'
+    split at h
+    · rename_i hle
+      simp only [Option.some.injEq] at h
+      subst h
+      split at h'
+      · rename_i hle'
+        simp only [Option.some.injEq] at h'
+        subst h'
+        exact linInterp_mono e0 e1 r r' p0 p1 h0 hr hle' b
+      · rename_i hgt'
+        have := (pctFrom_bounds c (by omega) h').1
+        exact Nat.le_trans (linInterp_le e0 e1 r p0 p1 a h0 hle b) this
+    · rename_i hgt
+      split at h'
+      · omega
+      · exact ih c (by omega) h h'
+
+/-- at a configured option the percentage is that option's -/
+theorem pctFrom_at {e0 p0 : Nat} {l : List Opt} {e p : Nat} (hc : WChain e0 p0 l)
+    (hm : (e, p) ∈ l) : pctFrom e0 p0 l e = some p := by
+  induction l generalizing e0 p0 with
+  | nil => simp at hm
+  | cons o rest ih =>
+    obtain ⟨e1, p1⟩ := o
+    obtain ⟨a, b, c⟩ := hc
+    rw [pctFrom_cons]
+    rcases List.mem_cons.mp hm with heq | hin
+    · simp only [Prod.mk.injEq] at heq
+      obtain ⟨rfl, rfl⟩ := heq
+      simp [linInterp_right e0 e p0 p a]
+    · have hlt : e1 < e := c.lt_of_mem hin
+      have : ¬ e ≤ e1 := by omega
+      simp only [this, if_false]
+      exact ih c hin
+
+/-- the documented formula on the bracketing options: with `(ea, pa)`, `(eb, pb)` consecutive
+    (possibly `(ea, pa) = (e0, p0)`, the implicit option before the list) and `ea < rem ≤ eb` -/
+theorem pctFrom_bracket {e0 p0 : Nat} {pre post : List Opt} {ea pa eb pb rem : Nat}
+    (hc : WChain e0 p0 (pre ++ (ea, pa) :: (eb, pb) :: post)) (h1 : ea < rem) (_h2 : rem ≤ eb) :
+    pctFrom e0 p0 (pre ++ (ea, pa) :: (eb, pb) :: post) rem = some (linInterp ea eb rem pa pb) := by
+  induction pre generalizing e0 p0 with
+  | nil =>
+    obtain ⟨_, _, _, _, _⟩ := hc
+    simp only [List.nil_append, pctFrom_cons]
+    have : ¬ rem ≤ ea := by omega
+    simp [this, _h2]
+  | cons o rest ih =>
+    obtain ⟨e1, p1⟩ := o
+    obtain ⟨_, _, c⟩ := hc
+    simp only [List.cons_append, pctFrom_cons]
+    have hle : e1 < ea := c.lt_of_mem (p := pa) (by simp)
+    have : ¬ rem ≤ e1 := by omega
+    simp only [this, if_false]
+    exact ih c
+
+/-! ### full / partial percentage, penalty amount -/
+
+theorem pctFull_le_max {opts : List Opt} {rem p : Nat} (ha : Admissible opts)
+    (h : pctFull opts rem = some p) : p ≤ lastPct 0 opts ∧ lastPct 0 opts ≤ MAXPCT := by
+  refine ⟨(pctFrom_bounds ha.wchain (Nat.zero_le _) h).2, ?_⟩
+  cases opts with
+  | nil => exact ha.elim
+  | cons o rest =>
+    obtain ⟨e1, p1⟩ := o
+    obtain ⟨_, b, c⟩ := ha
+    exact c.lastPct_le b
+
+theorem pctFull_mono {opts : List Opt} {r r' p p' : Nat} (ha : Admissible opts) (hr : r ≤ r')
+    (h : pctFull opts r = some p) (h' : pctFull opts r' = some p') : p ≤ p' :=
+  pctFrom_mono ha.wchain (Nat.zero_le _) hr h h'
+
+/-- a remaining time strictly below another admissible remaining time has a percentage below 100 % -/
+theorem pctFull_lt_max {opts : List Opt} {r r' p p' : Nat} (ha : Admissible opts) (hr : r < r')
+    (h : pctFull opts r = some p) (h' : pctFull opts r' = some p') : p < MAXPCT := by
+  cases opts with
+  | nil => exact ha.elim
+  | cons o rest =>
+    obtain ⟨e1, p1⟩ := o
+    have hw := ha.wchain
+    obtain ⟨hy, b, c⟩ := ha
+    have hY : YEAR = 360 := rfl
+    have hr' : r' ≤ lastEp 0 ((e1, p1) :: rest) := pctFrom_le_of_some hw h'
+    simp only [lastEp] at hr'
+    unfold pctFull at h
+    rw [pctFrom_cons] at h
+    split at h
+    · rename_i hle
+      simp only [Option.some.injEq] at h
+      subst h
+      rcases Nat.lt_or_ge r e1 with h1 | h1
+      · rcases Nat.eq_zero_or_pos p1 with hz | hz
+        · subst hz
+          have := linInterp_le 0 e1 r 0 0 (by omega) (Nat.zero_le _) hle (Nat.le_refl _)
+          have hM : MAXPCT = 10000 := rfl
+          omega
+        · exact Nat.lt_of_lt_of_le (linInterp_lt 0 e1 r 0 p1 (Nat.zero_le _) h1 hz) b
+      · have : r = e1 := by omega
+        subst this
+        rw [linInterp_right 0 r 0 p1 (by omega)]
+        -- there is a longer option, so p1 is not the largest
+        cases rest with
+        | nil => simp only [lastEp] at hr'; omega
+        | cons o2 r2 =>
+          obtain ⟨e2, p2⟩ := o2
+          obtain ⟨_, b2, b3, _⟩ := c
+          omega
+    · rename_i hgt
+      have := pctFrom_lt c (by omega) (by omega) h
+      exact Nat.lt_of_lt_of_le this (c.lastPct_le b)
+
+/-- for admissible options the reduction percentage never divides by zero and never underflows:
+    it is defined whenever both full percentages are -/
+theorem pctPartial_defined {opts : List Opt} {prev new pp pn : Nat} (ha : Admissible opts)
+    (hn : new < prev) (h1 : pctFull opts prev = some pp) (h2 : pctFull opts new = some pn) :
+    pn ≤ pp ∧ pn < MAXPCT ∧
+    pctPartial opts prev new = some ((pp - pn) * MAXPCT / (MAXPCT - pn)) := by
+  have hle := pctFull_mono ha (Nat.le_of_lt hn) h2 h1
+  have hlt := pctFull_lt_max ha hn h2 h1
+  refine ⟨hle, hlt, ?_⟩
+  simp only [pctPartial, h1, h2, Option.bind_eq_bind, Option.bind_some]
+  have e1 : sub? pp pn = some (pp - pn) := by simp [sub?, hle]
+  have e2 : sub? MAXPCT pn = some (MAXPCT - pn) := by simp [sub?, Nat.le_of_lt hlt]
+  have e3 : req (MAXPCT - pn ≠ 0) = some () := by
+    rw [req_eq_some]; omega
+  simp [e1, e2, e3]
+
+/-- the reduction percentage is at most the full percentage of the old remaining time -/
+theorem pctPartial_le {pp pn : Nat} (h1 : pn ≤ pp) (h2 : pp ≤ MAXPCT) (h3 : pn < MAXPCT) :
+    (pp - pn) * MAXPCT / (MAXPCT - pn) ≤ MAXPCT := by
+  apply Nat.div_le_of_le_mul
+  have : pp - pn ≤ MAXPCT - pn := by omega
+  calc (pp - pn) * MAXPCT ≤ (MAXPCT - pn) * MAXPCT := Nat.mul_le_mul_right _ this
 
 end Mx.Energy
